@@ -278,6 +278,7 @@ class Project:
 
     def __init__(self, dud, base, cache_mode="rel", cwd_sub=b"", remote=True, env_extra=None):
         self.dud_bin = dud
+        self.timeout = 120
         self.base = base                                   # private scratch dir of this case
         self.root = os.path.join(base, "outer", "proj")    # surrounded by a sentinel tree
         os.makedirs(self.root)
@@ -319,6 +320,7 @@ class Project:
         os.makedirs(self.cwd, exist_ok=True)
         self.cwd_sub = cwd_sub
         self.stage_paths = []
+        self.timeout = 120
         self.cmds = {}
         self.harness_corrupted = set()
         self.harness_removed = set()
@@ -340,7 +342,8 @@ class Project:
         if self.cache_mode == "shm":
             shutil.rmtree(self.shm, ignore_errors=True)
 
-    def dud(self, args, cwd=None, timeout=120):
+    def dud(self, args, cwd=None, timeout=None):
+        timeout = timeout or self.timeout
         p = subprocess.run([self.dud_bin] + args, cwd=cwd or self.cwd, env=self.env, stdout=subprocess.PIPE,
                            stderr=subprocess.PIPE, stdin=subprocess.DEVNULL, timeout=timeout)
         return p.returncode, ROOT_WARNING.sub(b"", p.stdout), p.stderr
@@ -810,6 +813,7 @@ def run_case(args):
     try:
         proj = Project(dud, base, cache_mode=case.get("cache", "rel"), cwd_sub=case.get("cwd", b""),
                        remote=True, env_extra=case.get("env"))
+        proj.timeout = case.get("timeout", 120)
         for k, p, *rest in case["init"]:
             proj.put(k, p, rest[0] if rest else None)
         for sp, st in case["stages"]:
@@ -824,7 +828,7 @@ def run_case(args):
             lock = os.path.exists(os.path.join(proj.root, ".dud", "lock"))
             step = dict(i=i, op=op, rc=r["rc"], err=r["err"], snap=snap, status=r["lines"], x=r["x"], log=r["log"],
                         inconsistent=r.get("inconsistent"),
-                        stderr=r["stderr"].decode(errors="replace")[-400:], lock=lock,
+                        stderr=r["stderr"].decode(errors="replace")[-400:], lock=lock, race=b"DATA RACE" in r["stderr"],
                         corrupted=sorted(proj.harness_corrupted), removed=sorted(proj.harness_removed))
             out["steps"].append(step)
             if ms is None or ms["status"] == "dead":
@@ -858,6 +862,8 @@ def run_case(args):
                     out["diffs"].append("step %d %s: executed stages differ: model %s impl %s" % (i, op_text(op), ms["log"], r["log"]))
             if len(out["diffs"]) > 40:
                 break
+    except subprocess.TimeoutExpired as e:
+        out["hang"] = "command %s did not finish within %s s" % (e.cmd[1:4], e.timeout)
     except Exception as e:
         import traceback
         out["error"] = traceback.format_exc()
